@@ -7,6 +7,7 @@
 import Ladybug.Proofs.C01Lemmas
 import Ladybug.Proofs.C01Header
 import Ladybug.Proofs.C01Obj
+import Ladybug.Proofs.C01Lines
 import Ladybug.Props.C08
 
 namespace Epw
@@ -848,6 +849,89 @@ example :
       C01Ex.isErr (step C01Ex.idc (fun _ => true) C01Ex.cv C01Ex.src (Obj.lazy [0, 0]) (.set 1 77 false)).2 = true ∧
       C01Ex.isErr (step C01Ex.idc (fun _ => true) C01Ex.cv C01Ex.src (Obj.lazy [0, 0]) (.writeShort 0)).2 = true ∧
       C01Ex.isErr (step C01Ex.idc (fun _ => true) C01Ex.cv C01Ex.src (Obj.lazy [0, 0]) (.field 2)).2 = true := by
+  decide +kernel
+
+/-! ### Round 4: input shapes, per-item independence (aliasing / container classes) -/
+
+/-- **Only the line feed cuts a line.**  A text made of lines that hold no `'\n'` (every other character is
+    allowed inside them: U+0085, U+2028, U+2029, form feed, vertical tab, FS/GS/RS, anything) is split by
+    `text.split('\n')` into exactly those lines.  This is what `from_file_string` relies on for header text. -/
+theorem C01_lines_split_only_at_newline (ls : List (List Char)) (hne : ls ≠ [])
+    (h : ∀ l ∈ ls, ∀ c ∈ l, c ≠ '\n') : splitLines (joinLines ls) = ls :=
+  splitLines_joinLines ls hne h
+
+/-- **The sections `from_file_string` takes.**  For eight header lines and any number of data rows, each
+    ended by a line feed, `all_lines[:8]` is the header and `all_lines[8:-1]` are the rows, whatever characters
+    other than the line feed the header text holds. -/
+theorem C01_file_sections (hs bs : List (List Char)) (h8 : hs.length = 8)
+    (hh : ∀ l ∈ hs, ∀ c ∈ l, c ≠ '\n') (hb : ∀ l ∈ bs, ∀ c ∈ l, c ≠ '\n') :
+    headerSection (fileText (hs ++ bs)) = hs ∧ bodySection (fileText (hs ++ bs)) = bs := by
+  have hall : ∀ l ∈ hs ++ bs ++ [[]], ∀ c ∈ l, c ≠ '\n' := by
+    intro l hl c hc
+    simp only [List.mem_append, List.mem_singleton] at hl
+    rcases hl with (hl | hl) | hl
+    · exact hh l hl c hc
+    · exact hb l hl c hc
+    · subst hl; simp at hc
+  have hsp : splitLines (fileText (hs ++ bs)) = hs ++ bs ++ [[]] :=
+    splitLines_joinLines _ (by simp) hall
+  unfold headerSection bodySection
+  rw [hsp]
+  constructor
+  · rw [List.append_assoc, List.take_left' h8]
+  · rw [List.append_assoc, List.drop_left' h8, List.dropLast_concat]
+
+/-- Non-vacuity: a comment holding U+2028, U+0085 and a form feed stays one line; a line feed cuts. -/
+example : splitLines ['a', ' ', 'b', '\u0085', '\x0c', 'c', '\n', 'd'] = [['a', ' ', 'b', '\u0085', '\x0c', 'c'], ['d']] ∧
+    headerSection (fileText ([['1'], ['2'], ['3'], ['4'], ['5'], ['6', ' '], ['7'], ['8']] ++ [['r']])) =
+      [['1'], ['2'], ['3'], ['4'], ['5'], ['6', ' '], ['7'], ['8']] := by
+  decide +kernel
+
+/-- **`to_wea` answers hour by hour.**  When the export succeeds for a list of hours, line `j` is the line of
+    hour `hoys[j]` alone: it does not depend on the other hours, their order or their number (so a tuple, a
+    generator or any other container with the same items gives the same lines; repeated and unsorted hours
+    are answered in place). -/
+theorem C01_wea_hoys_pointwise {Val : Type} (cv : Conv Val) (h0 : Nat) (hs : List Nat) (s : St Val)
+    (ls : List (Nat × Nat × Nat × Val × Val)) (hok : (s.toWea cv (some (h0 :: hs))).1 = .ok ls) :
+    ls.length = (h0 :: hs).length ∧
+      ∀ (j : Nat) (hr : Nat), (h0 :: hs)[j]? = some hr →
+        ∃ l, ls[j]? = some l ∧ weaLine ((s.toSi cv).leap.getD false) (s.toSi cv).cols hr = .ok l := by
+  simp only [St.toWea] at hok
+  exact ⟨mapE_length hok, fun j hr hj => mapE_ok_get _ _ _ hok j hr hj⟩
+
+/-- ... and the whole-year export (`hoys` absent or empty) is the same map over `0 .. N-1`. -/
+theorem C01_wea_all_hours {Val : Type} (cv : Conv Val) (s : St Val) :
+    (s.toWea cv none).1 = (s.toWea cv (some [])).1 ∧
+      (s.toWea cv none).1 = mapE (weaLine ((s.toSi cv).leap.getD false) (s.toSi cv).cols)
+        (List.range (hoursInYear ((s.toSi cv).leap.getD false))) := by
+  simp [St.toWea]
+
+/-- **Every depth of the GROUND TEMPERATURES line keeps its own soil properties.**  For a line of `n` blocks of
+    16 tokens in the file's own spelling (depth and values read by `float`, distinct depths), the parsed
+    dictionary holds, for block `j`, the conductivity / density / specific heat tokens of block `j` and its
+    twelve values: nothing is shared between depths. -/
+theorem C01_ground_each_depth_own_properties {F : Type} [DecidableEq F] (nc : NumCodec F)
+    (ps : List (GBlock × Ground F)) (cnt : String) (hr : ∀ p ∈ ps, GBlock.Reads nc p.1 p.2)
+    (hnd : ((ps.map Prod.snd).map (·.depth)).Nodup) (hc : nc.pi cnt = some (ps.length : Int)) (hne : cnt ≠ "") :
+    parseGround nc ("GROUND TEMPERATURES" :: cnt :: ((ps.map Prod.fst).map GBlock.toks).flatten) = .ok (ps.map Prod.snd) ∧
+      ∀ p ∈ ps, p.2.cond = p.1.cond ∧ p.2.dens = p.1.dens ∧ p.2.heat = p.1.heat := by
+  constructor
+  · unfold parseGround
+    have hcount : countTok nc ("GROUND TEMPERATURES" :: cnt :: ((ps.map Prod.fst).map GBlock.toks).flatten) = .ok ps.length := by
+      simp [countTok, hc, hne]
+    rw [hcount]
+    simp only [List.drop_succ_cons, List.drop_zero]
+    have e : ((ps.map Prod.fst).map GBlock.toks).flatten = ((ps.map Prod.fst).map GBlock.toks).flatten ++ [] := by simp
+    rw [e, parseGroundList_blocks nc ps [] [] hr, foldl_groundSet_append _ [] hnd (by simp)]
+    simp
+  · intro p hp
+    obtain ⟨_, h1, h2, h3, _⟩ := hr p hp
+    exact ⟨h1, h2, h3⟩
+
+/-- Non-vacuity (driver codec): two depths with different soil properties. -/
+example : ((parseGround decNum ["GROUND TEMPERATURES", "2", "0.5", "1.2", "", "0", "1", "2", "3", "4", "5", "6", "7", "8", "9",
+      "10", "11", "12", "4", "", "1600", "0.85", "1", "2", "3", "4", "5", "6", "7", "8", "9", "10", "11", "12"]).toOption.map
+        (fun gs => gs.map fun g => (g.cond, g.dens, g.heat))) = some [("1.2", "", "0"), ("", "1600", "0.85")] := by
   decide +kernel
 
 end Epw
